@@ -47,3 +47,7 @@ def run(ctx):
     from ..engines import storekeys as SK
     SK.w_insertion_discipline(ctx)
     ctx.floor("W2", 3)
+    # classes are marked verified from the dictionary that was stored as pruned
+    from ..engines import labelkind as LKK
+    LKK.k5_cache_invalidation(ctx)
+    ctx.floor("K5", 6)
